@@ -15,13 +15,14 @@
 EXTENDS Naturals, Sequences, FiniteSets, TLC
 CONSTANTS NCls,        \* number of model classes (indices)
           D            \* history length
-Graphs == {"g1", "g2"}
+Graphs == {"g1", "g2", "g3"}      \* g3: g1 with an invalid (negative) value on one edge
 Opts == {"o1", "o2", "omit"}
 SOpts == {"s1", "omit"}
 Cons == {"c1", "omit"}
 Igns == {"i1", "omit"}
+Scals == {"e1", "omit"}             \* error-scaling dict (scale 0 on the edge that is invalid in g3)
 Slots == 1..3
-Pool == {"g1", "g2", "o1", "o2", "s1", "c1", "i1"}
+Pool == {"g1", "g2", "g3", "o1", "o2", "s1", "c1", "i1", "e1"}
 
 VARIABLES val,       \* pool object -> abstract value (initially the object's own name: "pristine")
           model,     \* slot -> [cls, g, o, s, c, i] or "none"
@@ -32,17 +33,17 @@ pvars == <<val, model, phase, h>>
 PInit == /\ val = [o \in Pool |-> "pristine"]
          /\ model = [m \in Slots |-> <<>>] /\ phase = [m \in Slots |-> "none"] /\ h = <<>>
 
-Construct(m, cls, g, o, s, c, i) ==
-  /\ cls \in 1..NCls /\ g \in Graphs /\ o \in Opts /\ s \in SOpts /\ c \in Cons /\ i \in Igns
-  /\ model' = [model EXCEPT ![m] = <<cls, g, o, s, c, i>>]
+Construct(m, cls, g, o, s, c, i, e) ==
+  /\ cls \in 1..NCls /\ g \in Graphs /\ o \in Opts /\ s \in SOpts /\ c \in Cons /\ i \in Igns /\ e \in Scals
+  /\ model' = [model EXCEPT ![m] = <<cls, g, o, s, c, i, e>>]
   /\ phase' = [phase EXCEPT ![m] = "solved"]              \* histories construct and solve in one step
   /\ val' = val                                        \* the constructor copies what it needs
-  /\ h' = h \o << <<"construct", m, cls, g, o, s, c, i>>, <<"solve", m>> >>
+  /\ h' = h \o << <<"construct", m, cls, g, o, s, c, i, e>>, <<"solve", m>> >>
 Solve(m) == /\ phase[m] \in {"built", "solved"} /\ phase' = [phase EXCEPT ![m] = "solved"]
             /\ val' = val /\ UNCHANGED model /\ h' = Append(h, <<"solve", m>>)
 Get(m) == /\ phase[m] = "solved" /\ val' = val /\ UNCHANGED <<model, phase>> /\ h' = Append(h, <<"get", m>>)
 
-PNext == \/ \E m \in Slots, cls \in 1..NCls, g \in Graphs, o \in Opts, s \in SOpts, c \in Cons, i \in Igns : Construct(m, cls, g, o, s, c, i)
+PNext == \/ \E m \in Slots, cls \in 1..NCls, g \in Graphs, o \in Opts, s \in SOpts, c \in Cons, i \in Igns, e \in Scals : Construct(m, cls, g, o, s, c, i, e)
          \/ \E m \in Slots : Solve(m) \/ Get(m)
 PSpec == PInit /\ [][PNext]_pvars
 PoolUnchanged == \A o \in Pool : val[o] = "pristine"
